@@ -4,7 +4,8 @@
    [Print Assumptions] beneath.  The models are instantiated with the literals
    the translator read from hilbert_curve.rs / z_curve.rs (Gen/SfcGen.v). *)
 From Coupe Require Import Lib.Prelude Lib.SFloat Lib.Sorting Model.SfcPart Model.ZGeom Proofs.ZGeomProofs
-  Proofs.SortingProofs Proofs.SfcProofs Proofs.ZCurveProofs Proofs.ZCheckProofs Proofs.ZOracleProofs Proofs.WqTermProofs Gen.SfcGen.
+  Proofs.SortingProofs Proofs.SfcProofs Proofs.ZCurveProofs Proofs.ZCheckProofs Proofs.ZOracleProofs Proofs.WqTermProofs Gen.SfcGen
+  Lib.Rayon Model.SfcSched Proofs.SfcSchedProofs.
 From Coq Require Import Floats.SpecFloat Sorting.Permutation Sorting.Sorted.
 Open Scope nat_scope.
 
@@ -107,6 +108,55 @@ Theorem C09_hilbert_returns_partial : forall tol maxo order fuel idx ws k p0,
 Proof. exact hilbert_partition_terminates_partial. Qed.
 Print Assumptions C09_quantiles_terminate_partial.
 Print Assumptions C09_hilbert_returns_partial.
+
+(* ---- schedule independence of HilbertCurve (for the C06 collector) ----
+   [hilbert_partition_s ts] takes one rayon split tree per round of the
+   quantile search ([ts]) for the only schedule-dependent construct, the
+   fold/reduce of the per-part weight histogram (Model/SfcSched.v; min/max of
+   the indices are the true minimum/maximum whatever the schedule).
+   For integer-valued non-negative weights with total <= 2^53 ([exact_sums])
+   the result does not depend on the trees, given the per-point curve indices.
+   The premise [f64_add_exact_on_integers] is DESIGN §6's named assumption
+   "f64 + exact on integers < 2^53" (not proved from SpecFloat here). *)
+Theorem C09_hilbert_sched_indep : f64_add_exact_on_integers ->
+  forall ws, exact_sums ws ->
+  forall ts1 ts2 tol maxo order fuel idx k p0,
+  hilbert_partition_s ts1 tol maxo order fuel idx ws k p0
+  = hilbert_partition_s ts2 tol maxo order fuel idx ws k p0.
+Proof. exact hilbert_sched_indep. Qed.
+Print Assumptions C09_hilbert_sched_indep.
+
+(* ... and equals the sequential model the correspondence run executes *)
+Theorem C09_hilbert_sched_is_sequential : f64_add_exact_on_integers ->
+  forall ts tol maxo order fuel idx zs k p0,
+  Forall (fun z => (0 <= z)%Z) zs -> (sumZ zs <= 2 ^ 53)%Z ->
+  hilbert_partition_s ts tol maxo order fuel idx (map oz zs) k p0
+  = hilbert_partition tol maxo order fuel idx (map oz zs) k p0.
+Proof. exact hilbert_partition_s_seq. Qed.
+Print Assumptions C09_hilbert_sched_is_sequential.
+
+(* one round: the histogram for any split tree = the sequential fold *)
+Theorem C09_histogram_sched_indep : f64_add_exact_on_integers ->
+  forall t positions n pts zs,
+  Forall (fun z => (0 <= z)%Z) zs -> (sumZ zs <= 2 ^ 53)%Z ->
+  part_weights_sched t positions n pts (map oz zs)
+  = part_weights_of positions pts (map oz zs) (repeat fzero n).
+Proof. exact part_weights_sched_seq. Qed.
+Print Assumptions C09_histogram_sched_indep.
+
+(* instances of the assumed float fact, and a run with two different schedules *)
+Example C09_f64_add_exact_instances :
+  f64_add (f64_of_Z 3) (f64_of_Z 5) = f64_of_Z 8
+  /\ f64_add (f64_of_Z (2 ^ 52)) (f64_of_Z (2 ^ 52)) = f64_of_Z (2 ^ 53)
+  /\ f64_add (f64_of_Z 0) (f64_of_Z 7) = f64_of_Z 7
+  /\ f64_add (f64_of_Z 123456789012) (f64_of_Z 987654321) = f64_of_Z 124444443333.
+Proof. vm_compute. repeat split; reflexivity. Qed.
+Example C09_nonvacuous_sched :
+  let ws := map oz [1; 2; 3; 1; 1; 2; 1; 1]%Z in
+  let idx := [0; 9; 18; 27; 36; 45; 54; 63]%N in
+  hilbert_partition_s (fun _ => Node 3 (Node 1 Leaf Leaf) (Node 2 Leaf Leaf)) (f64_of_bits hilbert_split_tolerance_bits) 32 3 100 idx ws 4 (repeat 9%N 8)
+  = hilbert_partition_s (fun _ => Leaf) (f64_of_bits hilbert_split_tolerance_bits) 32 3 100 idx ws 4 (repeat 9%N 8).
+Proof. vm_compute. reflexivity. Qed.
 
 (* the checker used on the implementation's outputs decides the property *)
 Theorem C09_check_monotone_ok : forall idx parts,
